@@ -170,7 +170,7 @@ func raceChild() {
 
 	serve := func(i int) {
 		h, eps := w.instHandler(i)
-		par(8, 25, func(g, it int) {
+		par(8, 10, func(g, it int) {
 			tk := w.instFlow(i, 2, false)
 			switch (g + it) % 9 {
 			case 0:
@@ -197,11 +197,20 @@ func raceChild() {
 
 	switch mix {
 	case 0: // one provider, every endpoint, from 8 goroutines
-		newProvider(1, 2, []poptd{{"", func(w *world) op.Option { return op.WithCustomAuthEndpoint(w.customEps["auth"]) }}}, 0).run(w)
-		serve(1)
+		// ... in every optional-capability configuration; the FIRST requests of a fresh provider arrive at once
+		for _, caps := range []int{7, 0, 1, 5} {
+			newProviderCaps(1, 2, []poptd{{"", func(w *world) op.Option { return op.WithCustomAuthEndpoint(w.customEps["auth"]) }}}, 0, caps, false).run(w)
+			h, eps := w.instHandler(1)
+			par(8, 2, func(g, it int) { get(h, oidc.DiscoveryEndpoint, nil); get(h, eps.JwksURI.Relative(), nil) })
+			serve(1)
+		}
 	case 1: // one legacy server
-		newLegacy(1, 2).run(w)
-		serve(1)
+		for _, caps := range []int{7, 0, 4} {
+			newLegacyCaps(1, 2, caps).run(w)
+			h, _ := w.instHandler(1)
+			par(8, 2, func(g, it int) { get(h, oidc.DiscoveryEndpoint, nil) })
+			serve(1)
+		}
 	case 2: // one relying party on the default client
 		r, err := rp.NewRelyingPartyOIDC(bg, opfix.Issuer, "web", "web-secret", "https://web.example.com/cb", w.rpScopes, rp.WithVerifierOpts(w.rpVerOpts...))
 		if err != nil {
